@@ -347,23 +347,27 @@ Proof.
 Qed.
 
 Lemma ci_unknown_cited : forall vars units x ns n attrs kids, In (Elem ns n attrs kids) (elements x) ->
-  is_mathml_el "ci" (Elem ns n attrs kids) = true -> text_of (first_child kids) <> "" -> ~ In (text_of (first_child kids)) vars ->
-  In R_MATH_CI_VARIABLE_REFERENCE (val_cicn vars units x).
+  is_mathml_el "ci" (Elem ns n attrs kids) = true -> ci_text kids <> "" -> ~ In (ci_text kids) vars ->
+  In R_MATH_CI_VARIABLE_REFERENCE (val_cicn_gen ci_comment_fix_committed vars units x).
 Proof.
   intros vars units. induction x as [ns0 n0 attrs0 kids0 IH|s|s] using xml_ind3; intros ns n attrs kids Hy Hci Ht Hv; [|destruct Hy|destruct Hy].
   rewrite elements_elem in Hy. rewrite val_cicn_elem. destruct Hy as [Hy|Hy].
   - inversion Hy; subst. apply in_or_app. left.
     assert (Hcn : is_mathml_el "cn" (Elem ns n attrs kids) = false).
     { destruct (is_mathml_el "cn" (Elem ns n attrs kids)) eqn:E; [|reflexivity]. apply cn_not_ci in E. congruence. }
-    rewrite Hcn, Hci. unfold val_ci_name.
-    destruct (str_is_empty (text_of (first_child kids))) eqn:E1; [apply str_is_empty_iff in E1; contradiction|].
-    destruct (in_list (text_of (first_child kids)) vars) eqn:E2; [apply in_list_iff in E2; contradiction|]. left. reflexivity.
+    rewrite Hcn, Hci. destruct (val_ci_name_gen ci_comment_fix_committed vars kids) as [|r0 l0] eqn:E.
+    + exfalso. apply val_ci_name_nil in E. destruct E as [E|E]; contradiction.
+    + assert (Hr : r0 = R_MATH_CI_VARIABLE_REFERENCE).
+      { unfold val_ci_name_gen, val_ci_name in E. destruct ci_comment_fix_committed; cbv zeta in E;
+          repeat match type of E with context [if ?b then _ else _] => destruct b end; inversion E; reflexivity. }
+      subst r0. left. reflexivity.
   - apply in_or_app. right. apply in_flat_map in Hy. destruct Hy as [k [Hk Hy]]. apply in_flat_map. exists k. split; [exact Hk|].
     rewrite Forall_forall in IH. apply (IH k Hk ns n attrs kids Hy Hci Ht Hv).
 Qed.
 
 Lemma cn_units_cited : forall vars units x ns n attrs kids r, In (Elem ns n attrs kids) (elements x) ->
-  is_mathml_el "cn" (Elem ns n attrs kids) = true -> In r (val_cn_units units attrs) -> In r (val_cicn vars units x).
+  is_mathml_el "cn" (Elem ns n attrs kids) = true -> In r (val_cn_units units attrs) ->
+  In r (val_cicn_gen ci_comment_fix_committed vars units x).
 Proof.
   intros vars units. induction x as [ns0 n0 attrs0 kids0 IH|s|s] using xml_ind3; intros ns n attrs kids r Hy Hcn Hr; [|destruct Hy|destruct Hy].
   rewrite elements_elem in Hy. rewrite val_cicn_elem. destruct Hy as [Hy|Hy].
@@ -393,7 +397,7 @@ Qed.
 Lemma doc_unsupported : forall q vars units d k y, is_mathml_el "math" d = true -> In k (kids_of d) -> In y (elements k) ->
   is_supported y = false -> In R_MATH_CHILD (val_math_env_q q vars units d).
 Proof.
-  intros q vars units d k y Hd Hk Hy Hs. unfold val_math_env_q, val_math_env_gen2. rewrite Hd. cbn [negb]. apply in_or_app. left.
+  intros q vars units d k y Hd Hk Hy Hs. unfold val_math_env_q, val_math_env_gen3. rewrite Hd. cbn [negb]. apply in_or_app. left.
   change ((fix go (ks : list xml) : list rule := match ks with [] => [] | k :: r => val_supported k ++ go r end) (kids_of d))
     with (flat_map val_supported (kids_of d)).
   apply in_flat_map. exists k. split; [exact Hk|]. apply (unsupported_cited k y Hy Hs).
@@ -401,10 +405,10 @@ Qed.
 
 Lemma doc_ci_unknown : forall q vars units d ns n attrs kids, is_mathml_el "math" d = true ->
   In (Elem ns n attrs kids) (elements d) -> is_mathml_el "ci" (Elem ns n attrs kids) = true ->
-  text_of (first_child kids) <> "" -> ~ In (text_of (first_child kids)) vars ->
+  ci_text kids <> "" -> ~ In (ci_text kids) vars ->
   In R_MATH_CI_VARIABLE_REFERENCE (val_math_env_q q vars units d).
 Proof.
-  intros q vars units d ns n attrs kids Hd Hy Hci Ht Hv. unfold val_math_env_q, val_math_env_gen2. rewrite Hd. cbn [negb].
+  intros q vars units d ns n attrs kids Hd Hy Hci Ht Hv. unfold val_math_env_q, val_math_env_gen3. rewrite Hd. cbn [negb].
   apply in_or_app. right. apply in_or_app. left. apply (ci_unknown_cited vars units d ns n attrs kids Hy Hci Ht Hv).
 Qed.
 
@@ -412,7 +416,7 @@ Lemma doc_cn_units : forall q vars units d ns n attrs kids r, is_mathml_el "math
   In (Elem ns n attrs kids) (elements d) -> is_mathml_el "cn" (Elem ns n attrs kids) = true ->
   In r (val_cn_units units attrs) -> In r (val_math_env_q q vars units d).
 Proof.
-  intros q vars units d ns n attrs kids r Hd Hy Hcn Hr. unfold val_math_env_q, val_math_env_gen2. rewrite Hd. cbn [negb].
+  intros q vars units d ns n attrs kids r Hd Hy Hcn Hr. unfold val_math_env_q, val_math_env_gen3. rewrite Hd. cbn [negb].
   apply in_or_app. right. apply in_or_app. left. apply (cn_units_cited vars units d ns n attrs kids r Hy Hcn Hr).
 Qed.
 
